@@ -29,10 +29,12 @@ def verus_version():
         return 'unknown'
 
 
-def run(unit_path, rlimit=60, threads=8, timeout=1200):
+def run(unit_path, rlimit=60, threads=8, timeout=1200, only_fn=None):
     cmd = ['verus', os.path.basename(unit_path), '--output-json', '--time', '--multiple-errors', '200',
            '--triggers-mode', 'silent', '--error-format=json', '--rlimit', str(rlimit), '--num-threads', str(threads)]
-    if os.environ.get('VERIF_ONLY_FN'):
+    if only_fn:
+        cmd += ['--verify-root', '--verify-function', only_fn]
+    elif os.environ.get('VERIF_ONLY_FN'):
         cmd += ['--verify-root', '--verify-function', os.environ['VERIF_ONLY_FN']]
     t0 = time.time()
     try:
@@ -106,6 +108,11 @@ def classify(diag, unit_lines, fn_at_line):
             m = LABEL_RE.search(unit_lines[ln - 1])
             if m:
                 labels |= set(re.split(r'[ ,]+', m.group(1).strip()))
+    if site_span and msg.startswith('precondition'):
+        # a label on the call-site line narrows the attribution of a failed proof step
+        m = LABEL_RE.search(unit_lines[site_span['line_start'] - 1])
+        if m:
+            labels = set(re.split(r'[ ,]+', m.group(1).strip()))
     return {
         'kind': msg, 'semantic': semantic, 'function': fn_at_line(fn_line), 'labels': sorted(labels),
         'clause': clause_text.strip(), 'clause_line': clause_span['line_start'] if clause_span else None,
